@@ -242,7 +242,11 @@ func generate(cfg *config, prop string) (*genOutput, error) {
 			}
 			continue
 		}
-		if !hasProp(c.Props, prop) {
+		// a contract is verified for the properties it names and for those named
+		// on single clauses (`ensures label@C17: …`); such a clause's obligations
+		// belong to the clause's properties only
+		viaClause := !hasProp(c.Props, prop) && clauseHasProp(c, prop)
+		if !hasProp(c.Props, prop) && !viaClause {
 			continue
 		}
 		fn := prog.LookupFunc(c)
@@ -258,7 +262,11 @@ func generate(cfg *config, prop string) (*genOutput, error) {
 			out.genErrs[k] = err.Error()
 		}
 		out.funcs = append(out.funcs, k)
-		out.obls = append(out.obls, obls...)
+		for _, o := range obls {
+			if hasProp(o.Props, prop) {
+				out.obls = append(out.obls, o)
+			}
+		}
 		out.assumedCs = append(out.assumedCs, used...)
 	}
 	lem, err := vc.LemmaObligations(prog, u)
@@ -915,6 +923,17 @@ func dropLemmas(prelude, label string) string {
 		b.WriteString(line + "\n")
 	}
 	return b.String()
+}
+
+func clauseHasProp(c *spec.FuncContract, prop string) bool {
+	for _, l := range [][]*spec.Clause{c.Ensures, c.Guarantees, c.Invs} {
+		for _, cl := range l {
+			if hasProp(cl.Props, prop) {
+				return true
+			}
+		}
+	}
+	return false
 }
 
 func unionPkgs(a, b []string) []string {
